@@ -144,11 +144,14 @@ def kappa1d(ctx, rng, idx):
     model = conv.model(a)
     disc = md.fvm(model, mesh, num)
     A = np.zeros((n, n))
+    # unit impulses as a user may type them: np.eye(n)[j] (floats) or np.eye(n, dtype=int)[j] / integer literals (15 % of the cases):
+    # the operator is the same stencil whatever the element type of the data it is handed
+    int_typed = bool(rng.random() < 0.15)
     for j in range(n):
-        e = np.zeros(n); e[j] = 1.0
+        e = np.zeros(n, dtype=np.int64 if int_typed else float); e[j] = 1
         A[:, j] = disc.rhs(ffield.fdata(model, mesh, [e]))[0]
     ref = _kappa_matrix(n, k, a, L / n)
-    ctx.describe(recon=rname, kappa=k, n=n, a=a, length=L, operator_row0=A[0])
+    ctx.describe(recon=rname, kappa=k, n=n, a=a, length=L, operator_row0=A[0], integer_typed_impulses=int_typed)
     ctx.close("kappa1d", np.max(np.abs(A - ref)) * (L / n) / abs(a), 1e-12, "kappa1d/operator-not-kappa-stencil/" + rname.split("(")[0], {"n": n, "kappa": k, "a": a, "got row 0": A[0], "expected row 0": ref[0]}, cls="kappa1d")
     # same statement for random data (the operator is linear)
     # "for all data": O(1) random values, a small perturbation of a constant (1e-3...1e-10: values on both sides of the seam are nearly
